@@ -70,11 +70,9 @@ Qed.
 
 (* ---- the parser's ns_map recorder is write-only ---- *)
 Definition set_rec (x : ctx) (r : list (ostr * str)) : ctx :=
-  mkCtx (cache x) (xsi x) (seen x) r (built_n x).
+  mkCtx (cache x) (xsi x) (seen x) r (built_n x) (unsup x).
 Definition lift3 {A} (r : list (ostr * str)) (p : ctx * A * trace) : ctx * A * trace :=
   let '(x, a, t) := p in (set_rec x r, a, t).
-Definition lift4 {A B} (r : list (ostr * str)) (p : ctx * A * B * trace) : ctx * A * B * trace :=
-  let '(x, a, b, t) := p in (set_rec x r, a, b, t).
 
 Lemma rec_build w x r c p : ctx_build w (set_rec x r) c p = lift3 r (ctx_build w x c p).
 Proof.
@@ -111,39 +109,26 @@ Proof.
 Qed.
 
 Lemma rec_lnm w x r names c :
-  ctx_local_names_match w (set_rec x r) names c = lift4 r (ctx_local_names_match w x names c).
+  ctx_local_names_match w (set_rec x r) names c = lift3 r (ctx_local_names_match w x names c).
 Proof.
-  unfold ctx_local_names_match. rewrite rec_build. destruct (ctx_build w x c None) as [[x1 om] t1]. cbn [lift3].
-  destruct om; [reflexivity|]. destruct (find_class w c) as [cd|]; [|reflexivity].
-  destruct (truthy (target_qname cd)) as [q|]; [|reflexivity]. cbn [xsi set_rec].
-  destruct (index_get (xsi x1) q) as [l|]; [|reflexivity]. destruct (memN c l); reflexivity.
+  unfold ctx_local_names_match. cbn [unsup set_rec]. destruct (memN c (unsup x)); [reflexivity|].
+  rewrite rec_build. destruct (ctx_build w x c None) as [[x1 om] t1]. cbn [lift3].
+  destruct om; [reflexivity|]. destruct (find_class w c) as [cd|]; reflexivity.
 Qed.
 
-Lemma rec_scan_types fuel : forall w x r names q i,
-  scan_types fuel w (set_rec x r) names q i = lift4 r (scan_types fuel w x names q i).
+Lemma rec_scan_types l : forall w x r names,
+  scan_types w (set_rec x r) names l = lift3 r (scan_types w x names l).
 Proof.
-  induction fuel as [|f IH]; intros; cbn [scan_types]; [reflexivity|]. cbn [xsi set_rec].
-  destruct (index_get (xsi x) q) as [l|]; [|reflexivity]. destruct (nth_error l i) as [c|]; [|reflexivity].
-  rewrite rec_lnm. destruct (ctx_local_names_match w x names c) as [[[x1 ok] err] t1]. cbn [lift4].
-  destruct err; [reflexivity|]. rewrite IH. destruct (scan_types f w x1 names q (S i)) as [[[x2 cs] e2] t2].
-  reflexivity.
-Qed.
-
-Lemma rec_scan_index keys : forall w x r names,
-  scan_index w (set_rec x r) names keys = lift4 r (scan_index w x names keys).
-Proof.
-  induction keys as [|[q n] keys IH]; intros; cbn [scan_index]; [reflexivity|].
-  rewrite rec_scan_types. destruct (scan_types (S n) w x names q 0) as [[[x1 cs] e1] t1]. cbn [lift4].
-  destruct e1; [reflexivity|]. rewrite IH. destruct (scan_index w x1 names keys) as [[[x2 cs2] e2] t2].
-  reflexivity.
+  induction l as [|c l IH]; intros; cbn [scan_types]; [reflexivity|].
+  rewrite rec_lnm. destruct (ctx_local_names_match w x names c) as [[x1 ok] t1]. cbn [lift3].
+  rewrite IH. destruct (scan_types w x1 names l) as [[x2 cs] t2]. reflexivity.
 Qed.
 
 Lemma rec_find_by_fields w x r names :
-  ctx_find_by_fields w (set_rec x r) names = lift4 r (ctx_find_by_fields w x names).
+  ctx_find_by_fields w (set_rec x r) names = lift3 r (ctx_find_by_fields w x names).
 Proof.
   unfold ctx_find_by_fields. rewrite rec_build_xsi. cbn [xsi set_rec built_n].
-  rewrite rec_scan_index. destruct (scan_index w (ctx_build_xsi w x) names _) as [[[x1 cs] e] t]. cbn [lift4].
-  destruct e; reflexivity.
+  rewrite rec_scan_types. destruct (scan_types w (ctx_build_xsi w x) names _) as [[x1 cs] t]. reflexivity.
 Qed.
 
 Lemma rec_build_rec fuel : forall nested w x r c p,
@@ -168,8 +153,8 @@ Proof.
   - exists r. rewrite rec_find_type. destruct (ctx_find_type w x q) as [[x1 om] t1]. reflexivity.
   - exists r. rewrite rec_find_types. destruct (ctx_find_types w x q) as [[x1 om] t1]. reflexivity.
   - exists r. rewrite rec_find_subclass. destruct (ctx_find_subclass w x c q) as [[x1 om] t1]. reflexivity.
-  - exists r. rewrite rec_find_by_fields. destruct (ctx_find_by_fields w x names) as [[[x1 oc] e] t1]. reflexivity.
-  - exists r. rewrite rec_lnm. destruct (ctx_local_names_match w x names c) as [[[x1 b] e] t1]. reflexivity.
+  - exists r. rewrite rec_find_by_fields. destruct (ctx_find_by_fields w x names) as [[x1 oc] t1]. reflexivity.
+  - exists r. rewrite rec_lnm. destruct (ctx_local_names_match w x names c) as [[x1 b] t1]. reflexivity.
   - exists r. rewrite rec_build_rec. destruct (ctx_build_rec _ false w x c pns) as [[x1 ok] t1]. reflexivity.
   - exists r. rewrite rec_build_xsi. reflexivity.
   - exists r. reflexivity.
